@@ -177,6 +177,13 @@ def toResp : Item × Nat → Resp
   | (.note (.upd n), d) => .upd n d
   | (.sync, _) => .sync
 
+/-- the per-response ACL check of `sendSubscribeResponse`: a response whose prefix target the
+caller may not see is dropped silently -/
+def denied (a : Acl) (r : Resp) : Bool :=
+  match respTarget r with
+  | some t => !a.check t
+  | none => false
+
 /-- the sender loop until it blocks: empty queue, gated send, or the RPC ended -/
 def pump : Nat → Subscriber → Subscriber
   | 0, s => s
@@ -188,10 +195,7 @@ def pump : Nat → Subscriber → Subscriber
       | it :: rest =>
         let s := { s with queue := rest }
         let r := toResp it
-        let denied := match respTarget r with
-          | some t => !s.acl.check t
-          | none => false
-        if denied then pump fuel s
+        if denied s.acl r then pump fuel s
         else if s.gateShut then { s with blocked := some r }
         else
           let s := { s with out := s.out ++ [(r, s.gatedSinceDrain)] }
